@@ -52,34 +52,38 @@ structure Walk where
   bad : Bool             -- a field runs past it_len: the header is malformed from here on
   deriving Repr
 
-/-- place the fields of one present word -/
-def walkWord (bs : Bytes) (itLen : Nat) (w : Nat) (st : Walk) : Walk := Id.run do
-  let mut st := st
-  for bit in [0:29] do
-    if st.stopped || st.bad then break
-    if w.testBit bit then
+/-- place the fields named by bits `bit, bit+1, …` (`n` of them) of present word `w` -/
+def placeBits (itLen w : Nat) : Nat → Nat → Walk → Walk
+  | 0, _, st => st
+  | n + 1, bit, st =>
+    if st.stopped || st.bad then st
+    else if w.testBit bit then
       match st.ns with
-      | .vendor => pure ()                       -- described by the vendor's skip length
+      | .vendor => placeBits itLen w n (bit + 1) st          -- described by the vendor's skip length
       | .radiotap =>
         match rtTable.find? (fun e => e.1 == st.base + bit) with
-        | none => st := { st with stopped := true }
+        | none => { st with stopped := true }
         | some (_, a, sz) =>
           let off := alignUp st.off a
-          if off + sz > itLen then st := { st with bad := true }
-          else st := { st with off := off + sz, fields := st.fields ++ [⟨st.base + bit, off⟩] }
-  if st.stopped || st.bad then return st
-  -- namespace selection for the next word
-  if w.testBit 29 then
-    st := { st with ns := .radiotap }
-  if w.testBit 30 then
-    let off := alignUp st.off 2
-    if off + 6 > itLen then return { st with bad := true }
-    let skip := u16 bs (off + 4)
-    if off + 6 + skip > itLen then return { st with bad := true }
-    st := { st with off := off + 6 + skip, ns := .vendor }
-  -- field numbering restarts after a namespace switch, otherwise the next word continues it
-  st := { st with base := if w.testBit 29 || w.testBit 30 then 0 else st.base + 32 }
-  return st
+          if off + sz > itLen then { st with bad := true }
+          else placeBits itLen w n (bit + 1) { st with off := off + sz, fields := st.fields ++ [⟨st.base + bit, off⟩] }
+    else placeBits itLen w n (bit + 1) st
+
+/-- place the fields of one present word (bits 0..28), then select the namespace for the next word -/
+def walkWord (bs : Bytes) (itLen : Nat) (w : Nat) (st : Walk) : Walk :=
+  let st := placeBits itLen w 29 0 st
+  if st.stopped || st.bad then st
+  else
+    let st := if w.testBit 29 then { st with ns := .radiotap } else st
+    if w.testBit 30 then
+      let off := alignUp st.off 2
+      if off + 6 > itLen then { st with bad := true }
+      else
+        let skip := u16 bs (off + 4)
+        if off + 6 + skip > itLen then { st with bad := true }
+        else { st with off := off + 6 + skip, ns := .vendor, base := 0 }
+    -- field numbering restarts after a namespace switch, otherwise the next word continues it
+    else { st with base := if w.testBit 29 then 0 else st.base + 32 }
 
 /-- all decoded fields of a header, or `none` when the header must be refused -/
 def rtFields (bs : Bytes) : Option (Nat × List RtField) :=
@@ -128,38 +132,38 @@ structure RtValues where
   dataRetries : Nat := 0
   deriving Repr, DecidableEq
 
-def rtValues (bs : Bytes) (itLen : Nat) (fields : List RtField) (maxAnt : Nat) : RtValues := Id.run do
-  let mut v : RtValues := { length := itLen }
-  let mut sawSignal := false
-  for f in fields do
-    let o := f.off
-    match f.field with
-    | 1 => v := { v with flags := u8 bs o }
-    | 2 => v := { v with rateRaw := u8 bs o }
-    | 3 =>
-      let fr := u16 bs o
-      let (band, ch) := channelOf fr
-      v := { v with chanFreq := fr, chanFlags := u16 bs (o + 2), chanBand := v.chanBand ||| band,
-                    chanCenter := if band = 0 then v.chanCenter else ch % 256 }
-    | 5 =>
-      if !sawSignal then
-        v := { v with signal := u8 bs o }
-        sawSignal := true
-      else if v.antennas.length < maxAnt then
-        v := { v with antennas := v.antennas ++ [(v.antennas.length, u8 bs o)] }
-    | 10 => v := { v with txPower := u8 bs o }
-    | 11 =>
-      match v.antennas.getLast? with
-      | some (_, s) => v := { v with antennas := v.antennas.dropLast ++ [(u8 bs o, s)] }
-      | none => pure ()
-    | 14 => v := { v with rxFlags := u16 bs o }
-    | 15 => v := { v with txFlags := u16 bs o }
-    | 16 => v := { v with rtsRetries := u8 bs o }
-    | 17 => v := { v with dataRetries := u8 bs o }
-    | 19 => v := { v with mcs := (u8 bs o, u8 bs (o + 1), u8 bs (o + 2)) }
-    | 22 => v := { v with ts := (u64 bs o, u16 bs (o + 8), u8 bs (o + 10), u8 bs (o + 11)) }
-    | _ => pure ()
-  return v
+/-- effect of one placed field on the reported values; the Boolean records that the frame's own
+signal has been seen -/
+def valueStep (bs : Bytes) (maxAnt : Nat) (acc : RtValues × Bool) (f : RtField) : RtValues × Bool :=
+  let v := acc.1
+  let o := f.off
+  match f.field with
+  | 1 => ({ v with flags := u8 bs o }, acc.2)
+  | 2 => ({ v with rateRaw := u8 bs o }, acc.2)
+  | 3 =>
+    let fr := u16 bs o
+    let bc := channelOf fr
+    ({ v with chanFreq := fr, chanFlags := u16 bs (o + 2), chanBand := v.chanBand ||| bc.1,
+              chanCenter := if bc.1 = 0 then v.chanCenter else bc.2 % 256 }, acc.2)
+  | 5 =>
+    if !acc.2 then ({ v with signal := u8 bs o }, true)
+    else if v.antennas.length < maxAnt then ({ v with antennas := v.antennas ++ [(v.antennas.length, u8 bs o)] }, acc.2)
+    else acc
+  | 10 => ({ v with txPower := u8 bs o }, acc.2)
+  | 11 =>
+    match v.antennas.getLast? with
+    | some (_, s) => ({ v with antennas := v.antennas.dropLast ++ [(u8 bs o, s)] }, acc.2)
+    | none => acc
+  | 14 => ({ v with rxFlags := u16 bs o }, acc.2)
+  | 15 => ({ v with txFlags := u16 bs o }, acc.2)
+  | 16 => ({ v with rtsRetries := u8 bs o }, acc.2)
+  | 17 => ({ v with dataRetries := u8 bs o }, acc.2)
+  | 19 => ({ v with mcs := (u8 bs o, u8 bs (o + 1), u8 bs (o + 2)) }, acc.2)
+  | 22 => ({ v with ts := (u64 bs o, u16 bs (o + 8), u8 bs (o + 10), u8 bs (o + 11)) }, acc.2)
+  | _ => acc
+
+def rtValues (bs : Bytes) (itLen : Nat) (fields : List RtField) (maxAnt : Nat) : RtValues :=
+  (fields.foldl (valueStep bs maxAnt) ({ length := itLen }, false)).1
 
 end LWV.Spec
 
